@@ -3,9 +3,9 @@ def probs(d):
 
 
 RULES = [
-    ("C20-F1", "the same expression declared under two names: with optimisation CSE removes the second producer and "
+    ("C20-F1", "the same expression declared under two names (or, for bundle each/filter results, repeated anonymously in a later statement): with optimisation CSE removes one producer and "
                "the second name gets no anchor (not exposed)",
-     lambda c, d: c["consumption"] == "twice-same-expr" and c["optimize"] and any("not exposed" in p for p in probs(d))),
+     lambda c, d: c["consumption"] in ("twice-same-expr", "repeated-anonymously") and c["optimize"] and any("not exposed" in p for p in probs(d))),
     ("C20-F2", "an alias of a bundle each/filter/input result (Bundle r2 = r) that is the only unconsumed name of the "
                "value is not exposed: no anchor labelled r2",
      lambda c, d: c["consumption"] in ("alias-first-consumed", "alias-both-unconsumed") and any("not exposed" in p for p in probs(d))),
